@@ -2,6 +2,7 @@
 //! harness crate can drive them. Compiled only with `--cfg zcash_librustzcash_verif`; adds no
 //! behaviour.
 
+use alloc::collections::BTreeSet;
 use alloc::vec::Vec;
 use core::num::NonZeroUsize;
 
@@ -36,4 +37,14 @@ pub fn next_step(
     set_aside: &[MigrationTransferId],
 ) -> AdvanceStep {
     state.next_step(targets, set_aside)
+}
+
+/// `MigrationState::next_broadcastable`.
+pub fn next_broadcastable(
+    state: &MigrationState,
+    targets: DuenessTargets,
+    dead: &BTreeSet<MigrationTransferId>,
+    set_aside: &[MigrationTransferId],
+) -> Option<MigrationTransferId> {
+    state.next_broadcastable(targets, dead, set_aside)
 }
